@@ -43,7 +43,7 @@ def holds(name, cond, x):
 
 
 def gen_base(rng, name):
-    c = gen.dm_case(rng, nmax=8, mmax=5, nmin=2, mmin=2, modes=("tiny012", "tiny123", "int"), big=0.0)
+    c = gen.dm_case(rng, nmax=8, mmax=5, nmin=2, mmin=2, modes=("tiny012", "tiny123", "int"), big=0.0, int_dtypes=0.4)
     m = len(c["criteria"])
     k = rng.randint(1, min(4, m))
     crits = rng.sample(c["criteria"], k)
@@ -59,9 +59,15 @@ def gen_base(rng, name):
         if name == "Filter":
             conds.append([cr, rng.choice(list(PAL))])
         elif name in SETS:
-            conds.append([cr, rng.sample(colv, max(1, len(colv) // 2))])
+            vals = rng.sample(colv, max(1, len(colv) // 2))
+            if rng.random() < 0.35:
+                # a long set (membership algorithms switch with the size of the set), mostly of absent values
+                vals = vals[: rng.randint(0, len(vals))] + [100.0 + 1.5 * t for t in range(rng.randint(12, 40))]
+                rng.shuffle(vals)
+            conds.append([cr, vals])
         else:
-            conds.append([cr, rng.choice(colv)])
+            # a value of the column (so that equality is hit), or a threshold strictly between two values
+            conds.append([cr, rng.choice(colv) + rng.choice([0.0, 0.0, 0.0, 0.5, -0.5, 0.25, -0.75])])
     c["tf"] = {"cls": name, "params": {}, "kind": 6, "ignore_missing": rng.random() < 0.5}
     return c, conds
 
